@@ -2,7 +2,7 @@ package discovery
 
 // Bounded stand-in (not a proof): initRegex builds the filter pattern through a
 // []rune conversion the verifier does not model. Every server argument
-// "/"+w+"/" with w over the alphabet below up to length 6 must give the filter
+// "/"+w+"/" with w over the alphabet below up to length 6 (8 in the thorough tier) must give the filter
 // compiled from exactly w, and clear the list.
 
 import (
@@ -38,7 +38,11 @@ func TestGovcBoundedInitRegex(t *testing.T) {
 			gen(prefix+c, n-1)
 		}
 	}
-	gen("", 6)
+	maxLen := 6
+	if os.Getenv("GOVC_TIER") == "thorough" {
+		maxLen = 8
+	}
+	gen("", maxLen)
 	checked := 0
 	for _, w := range words {
 		if _, err := regexp.Compile(w); err != nil {
